@@ -304,8 +304,19 @@ def rule_casretry(ctx, rep):
                 continue
             comp = max(inl, key=len)
             fld = pat.last_field(e.ap)
-            x = f.inst_of(ir.strip_casts(f, e.exp))
+            xv = ir.strip_casts(f, e.exp)
+            x = f.inst_of(xv)
             if x is None or x.op != "phi":
+                # expected value fixed before the loop (an argument / a snapshot taken outside): a failed attempt that goes round
+                # again compares with the same stale value
+                outside = (xv[0] == "a") or (x is not None and x.blk.id not in comp and x.op in ("load", "asm", "cmpxchg", "rmw", "call"))
+                if outside:
+                    fail = [(t.blk.id, s_) for t, s_, a in pat.branch_edges_on(f, lambda a: a[0] == "ne" and any(isinstance(z, tuple) and z[0] in ("asm", "cmpxchg") and z[-1] == c.id for z in (a[1], a[2])))]
+                    again = any(s_ in comp and f.reach([f.blocks[s_].insts[0]], [c], include_start=True)[0] is not None for b_, s_ in fail)
+                    if again:
+                        n += 1
+                        rep.bad("C17.casretry", "%s.%s@%d" % (name, (fld or "?").split(".")[-1], c.id), "the CAS on %s is retried after a failure with an expected value (%s) fixed before the loop: once another thread "
+                                "changed the word the retry can never succeed - the operation spins for ever" % (fld, ir.expr_str(ir.expr(f, e.exp, 3))), [c.where()])
                 continue
             leaves, seen, st = [], set(), [x]
             while st:
